@@ -66,10 +66,7 @@ pub(crate) trait MessageType: Sized {
         // Content length
         if let Some(status) = self.status() {
             match status {
-                StatusCode::CONTINUE
-                | StatusCode::SWITCHING_PROTOCOLS
-                | StatusCode::PROCESSING
-                | StatusCode::NO_CONTENT => {
+                status if status.is_informational() || status == StatusCode::NO_CONTENT => {
                     // skip content-length and transfer-encoding headers
                     // see https://datatracker.ietf.org/doc/html/rfc7230#section-3.3.1
                     // and https://datatracker.ietf.org/doc/html/rfc7230#section-3.3.2
@@ -346,8 +343,17 @@ impl<T: MessageType> MessageEncoder<T> {
         conn_type: ConnectionType,
         config: &ServiceConfig,
     ) -> io::Result<()> {
+        // Responses to HEAD requests and 1xx and 204 responses never have a body; whatever body
+        // the handler supplied must not reach the wire. (After 101 the connection is a tunnel,
+        // so its "body" is passed through.)
+        let no_body = head
+            || message.status().is_some_and(|status| {
+                (status.is_informational() && status != StatusCode::SWITCHING_PROTOCOLS)
+                    || status == StatusCode::NO_CONTENT
+            });
+
         // transfer encoding
-        if !head {
+        if !no_body {
             self.te = match length {
                 BodySize::Sized(0) => TransferEncoding::empty(),
                 BodySize::Sized(len) => TransferEncoding::length(len),
